@@ -13,6 +13,7 @@ mod pairs;
 mod props;
 mod refcodec;
 mod rope_mc;
+mod sched;
 mod term;
 mod tree_checks;
 mod trees;
@@ -91,6 +92,7 @@ fn meta(prop: &str) -> Meta {
     "C12" => Meta { level: "model_checking", rule: "states = mapping sequences / delta pairs / grammar strings enumerated; non-trivial = sequence of >= 2 segments with a mapped one, or string decoding to >= 2 segments", assumptions: &["bounded: <= 2 segments over the full boundary alphabet, 3-4 over a reduced one; generated lines stay small (one ';' per line)", "reference codec mc/src/refcodec.rs written from the source-map v3 description", "values < 2^31 (u32 fields of Mapping)"], workers: 16 },
     "C15" => Meta { level: "model_checking", rule: "states = SourceMap values and JSON documents enumerated; non-trivial = value with >= 2 table entries / any document", assumptions: &["string alphabet of 12 strings covering quotes, backslash, control characters, U+2028/9, astral", "independent parser: serde_json"], workers: 16 },
     "C17" => Meta { level: "model_checking", rule: "states = inputs enumerated (decoder strings, byte strings, edited documents, wild source trees), each run in the overflow-checked and in the release profile; non-trivial = input that parses / decodes to >= 2 segments / composite tree", assumptions: &["bounded lengths (coverage.bounds)", "hang detection: per-worker wall limit", "dependencies (simd-json) are part of the subject"], workers: 16 },
+    "C18" => Meta { level: "model_checking", rule: "states = scheduling decision nodes visited; evaluations = complete schedules executed (each compared with the single-threaded answers); non-trivial = schedules with >= 1 preemption", assumptions: &["interleavings at the granularity of the guarded hook points placed before every shared-state access of ReplaceSource, CachedSource and the raw sources, and in callbacks of a user-defined child", "sequential consistency (the code uses SeqCst atomics and locks only)", "preemption bound and programs listed in coverage.bounds / coverage.notes"], workers: 16 },
     "C11" => Meta { level: "model_checking", rule: "one case per distinct term; non-trivial = some map() has >= 2 segments", assumptions: tree_assume, workers: 16 },
     _ => panic!("unknown property {prop}"),
   }
@@ -112,6 +114,7 @@ fn run_worker(prop: &str, tier: &str, k: usize, n: usize, ctx: &mut Ctx) {
       props::c17_tree_worker(tier, k, n, ctx);
     }
     "C16" => rope_mc::worker(tier, k, n, ctx),
+    "C18" => sched::worker(tier, k, n, ctx),
     "C14" => pairs::c14_worker(tier, k, n, ctx),
     "C20" => pairs::c20_worker(tier, k, n, ctx),
     "C10" => hist::c10_worker(tier, k, n, ctx),
@@ -136,6 +139,7 @@ fn bounds(prop: &str, tier: &str) -> Value {
       "trees": "wild scope (multi-byte text, invalid UTF-8, maps outside text/tables) through all Source methods and 4 stream modes; SourceMapSource with inner map: all <=2-segment outer x inner lists over wild kinds x 8 option sets, also beneath Cached+Replace and inside Concat",
     }),
     "C16" => rope_mc::bounds(tier),
+    "C18" => sched::bounds(tier),
     "C14" => pairs::c14_bounds(tier),
     "C20" => pairs::c20_bounds(tier),
     "C10" => hist::c10_bounds(tier),
@@ -172,6 +176,11 @@ fn main() {
           total.merge(t2);
           total.add("evaluations_in_release_profile", released);
           errors.extend(e2.into_iter().map(|e| format!("release: {e}")));
+        }
+      }
+      for n in total.notes.clone() {
+        if let Some(m) = n.strip_prefix("MACHINERY: ") {
+          errors.push(m.to_string());
         }
       }
       if prop == "C20" {
@@ -301,6 +310,7 @@ fn replay(prop: &str, case: &Value, ctx: &mut Ctx) {
         pairs::c20_pair(ctx, &t, &e, case["edit"].as_str().unwrap_or(""));
       }
     }
+    "C18" => sched::replay(ctx, case),
     "C13" => {
       let base: term::Term = serde_json::from_value(case["base"].clone()).expect("base");
       let variant: term::Term = serde_json::from_value(case["variant"].clone()).expect("variant");
